@@ -38,6 +38,13 @@ type C16Plan struct {
 	TimeoutMs   int       `json:"timeout_ms"`
 	Calls       []C16Call `json:"calls"`
 	Unsolicited int       `json:"unsolicited"` // number of unsolicited responses interleaved
+	// Retry: after the batch, these calls (indexes into Calls) are issued again one at a time and
+	// answered at once: an earlier reject, time-out or late answer of the same key must leave nothing
+	// behind that swallows the new response
+	Retry []int `json:"retry,omitempty"`
+	// Edge: call 0 is answered right at its own deadline (either outcome is fine for it) while all
+	// other calls, issued half a time-out later, are still pending and must get their own outcomes
+	Edge bool `json:"edge,omitempty"`
 }
 
 func c16Tx(key int) *wire.MsgTx {
@@ -176,14 +183,54 @@ func c16Run(plan *C16Plan) (*c16Violation, map[string]bool) {
 		val     interface{}
 		elapsed time.Duration
 	}
+	doCall := func(call C16Call) (o outcome) {
+		t0 := time.Now()
+		switch call.Kind {
+		case "gettx":
+			o.val, o.err = tc.c.GetTx(ctx, *c16Tx(call.Key).TxHash())
+		case "getheaders":
+			o.val, o.err = tc.c.GetHeaders(ctx, 1000+call.Key, 3)
+		case "getheader":
+			h := c16Header(call.Key)
+			o.val, o.err = tc.c.GetHeader(ctx, *h.BlockHash())
+		case "sendtx":
+			o.err = tc.c.SendTx(ctx, c16Tx(call.Key))
+		case "savetxs":
+			o.err = tc.c.SaveTxs(ctx, expanded_tx.AncestorTxs{{Tx: c16Tx(call.Key)}, {Tx: c16Tx(call.Key + 100)}})
+		case "reprocess":
+			o.err = tc.c.ReprocessTx(ctx, *c16Tx(call.Key).TxHash(), nil)
+		case "markinvalid":
+			h := c16Header(call.Key)
+			o.err = tc.c.MarkHeaderInvalid(ctx, *h.BlockHash())
+		case "marknotinvalid":
+			h := c16Header(call.Key)
+			o.err = tc.c.MarkHeaderNotInvalid(ctx, *h.BlockHash())
+		case "feequotes":
+			o.val, o.err = tc.c.GetFeeQuotes(ctx)
+		}
+		o.elapsed = time.Since(t0)
+		return o
+	}
 	results := make([]outcome, n)
+	// when each call was issued and when the server wrote its response: on a loaded machine either
+	// can slip by more than the request time-out, and then the outcome says nothing about the client
+	callAt := make([]time.Time, n)
+	sentAt := make([]time.Time, n)
+	var tmu sync.Mutex
 	var wg sync.WaitGroup
 	start := time.Now()
+	edge := plan.Edge && n >= 2
 	for i, call := range plan.Calls {
 		wg.Add(1)
 		go func(i int, call C16Call) {
 			defer wg.Done()
+			if edge && i > 0 {
+				time.Sleep(timeout / 2)
+			}
 			t0 := time.Now()
+			tmu.Lock()
+			callAt[i] = t0
+			tmu.Unlock()
 			var o outcome
 			switch call.Kind {
 			case "gettx":
@@ -223,7 +270,12 @@ func c16Run(plan *C16Plan) (*c16Violation, map[string]bool) {
 	}
 	sort.SliceStable(order, func(a, b int) bool { return plan.Calls[order[a]].Order < plan.Calls[order[b]].Order })
 	unsolicited := plan.Unsolicited
-	respond := func(call C16Call) {
+	respond := func(call C16Call, idx int) {
+		defer func() {
+			tmu.Lock()
+			sentAt[idx] = time.Now()
+			tmu.Unlock()
+		}()
 		kh := c16KeyHash(call)
 		switch call.Behave {
 		case "reject":
@@ -252,9 +304,27 @@ func c16Run(plan *C16Plan) (*c16Violation, map[string]bool) {
 			_ = sc.send(&Accept{MessageType: c16MsgType[call.Kind], Hash: &kh})
 		}
 	}
+	if edge {
+		// call 0 gets its answer just as its time-out fires
+		tmu.Lock()
+		c0 := callAt[0]
+		tmu.Unlock()
+		if c0.IsZero() {
+			c0 = start
+		}
+		time.Sleep(time.Until(c0.Add(timeout - time.Millisecond)))
+		e := plan.Calls[0]
+		e.Behave = "answer"
+		respond(e, 0)
+		flags["edge-answer"] = true
+	}
 	var late []C16Call
+	var lateIdx []int
 	for _, idx := range order {
 		call := plan.Calls[idx]
+		if edge && idx == 0 {
+			continue // answered at its deadline above
+		}
 		if unsolicited > 0 {
 			unsolicited--
 			junk := c16Tx(200 + idx)
@@ -274,16 +344,22 @@ func c16Run(plan *C16Plan) (*c16Violation, map[string]bool) {
 			flags["timeout-case"] = true
 		case "late":
 			late = append(late, call)
+			lateIdx = append(lateIdx, idx)
 			flags["timeout-case"] = true
 		default:
-			respond(call)
+			respond(call, idx)
 		}
 	}
 	if len(late) > 0 {
-		time.Sleep(timeout + 60*time.Millisecond - time.Since(start))
-		for _, call := range late {
+		lateFrom := start
+		if edge {
+			lateFrom = start.Add(timeout / 2)
+		}
+		time.Sleep(timeout + 60*time.Millisecond - time.Since(lateFrom))
+		for _, idx := range lateIdx {
+			call := plan.Calls[idx]
 			call.Behave = "answer"
-			respond(call)
+			respond(call, idx)
 		}
 		flags["late-answer"] = true
 	}
@@ -299,6 +375,29 @@ func c16Run(plan *C16Plan) (*c16Violation, map[string]bool) {
 		kinds[call.Kind] = true
 		o := results[i]
 		d := fmt.Sprintf("call %d %s(key %d, server behaviour %s, response order %d)", i, call.Kind, call.Key, call.Behave, call.Order)
+		tmu.Lock()
+		ca, sa := callAt[i], sentAt[i]
+		tmu.Unlock()
+		if edge && i == 0 {
+			if o.err != nil && errors.Cause(o.err) != ErrTimeout {
+				return &c16Violation{"C16/" + call.Kind + "/edge-outcome", fmt.Sprintf("%s: answered at its deadline and returned err=%v (neither the answer nor a time-out)", d, o.err)}, flags
+			}
+			continue
+		}
+		switch call.Behave {
+		case "late":
+			// only a verdict if the response was really written after this call's own deadline
+			if !sa.IsZero() && sa.Before(ca.Add(timeout+20*time.Millisecond)) {
+				flags["slipped-under-load"] = true
+				continue
+			}
+		case "answer", "reject":
+			// only a verdict if the response was written well inside this call's own time-out
+			if sa.IsZero() || sa.After(ca.Add(timeout*6/10)) {
+				flags["slipped-under-load"] = true
+				continue
+			}
+		}
 		switch call.Behave {
 		case "silence", "late":
 			if errors.Cause(o.err) != ErrTimeout {
@@ -346,6 +445,47 @@ func c16Run(plan *C16Plan) (*c16Violation, map[string]bool) {
 	}
 	if len(kinds) >= 2 && n >= 3 {
 		flags["mixed-concurrent"] = true
+	}
+	// retry phase: one call at a time, answered as soon as the request is seen
+	for _, idx := range plan.Retry {
+		if idx < 0 || idx >= n {
+			continue
+		}
+		call := plan.Calls[idx]
+		srvMu.Lock()
+		before := len(got)
+		srvMu.Unlock()
+		resc := make(chan outcome, 1)
+		issued := time.Now()
+		go func() { resc <- doCall(call) }()
+		arrivedInTime := false
+		for time.Since(issued) < timeout*4/10 {
+			srvMu.Lock()
+			l := len(got)
+			srvMu.Unlock()
+			if l > before {
+				arrivedInTime = true
+				break
+			}
+			time.Sleep(time.Millisecond)
+		}
+		call.Behave = "answer"
+		respond(call, idx)
+		wrote := time.Now()
+		var o outcome
+		select {
+		case o = <-resc:
+		case <-time.After(timeout + 5*time.Second):
+			return &c16Violation{"C16/call-hung", "a retried call did not return within the request time-out plus 5 s"}, flags
+		}
+		flags["retry:"+plan.Calls[idx].Behave] = true
+		if !arrivedInTime || wrote.After(issued.Add(timeout*6/10)) {
+			flags["slipped-under-load"] = true
+			continue
+		}
+		if o.err != nil {
+			return &c16Violation{"C16/" + call.Kind + "/retry-outcome", fmt.Sprintf("call %d %s(key %d) was issued again after the batch (first time: server behaviour %s) and answered at once, but returned err=%v after %v", idx, call.Kind, call.Key, plan.Calls[idx].Behave, o.err, o.elapsed)}, flags
+		}
 	}
 	return nil, flags
 }
@@ -401,10 +541,14 @@ func genC16(t *rapid.T) *C16Plan {
 	if len(plan.Calls) == 0 {
 		plan.Calls = []C16Call{{Kind: "gettx", Key: 1, Behave: "answer"}}
 	}
+	plan.Edge = len(plan.Calls) >= 2 && rapid.IntRange(0, 4).Draw(t, "edge") == 0
+	for k, c := 0, rapid.IntRange(0, 2).Draw(t, "nretry"); k < c; k++ {
+		plan.Retry = append(plan.Retry, rapid.IntRange(0, len(plan.Calls)-1).Draw(t, "retry"))
+	}
 	return plan
 }
 
-const c16Rule = "a real RemoteClient.Run against a scripted loopback server that completes the handshake with the real server key; plan = 1..7 concurrent synchronous calls of mixed kinds with distinct keys, per call the server answers, rejects (code, text) or stays silent / answers after the time-out, in a generated response order with small delays, plus unsolicited responses; request time-out 150-400 ms; oracle: every call returns exactly the planned outcome for its own key; non-trivial = >= 3 concurrent calls of >= 2 kinds, or a time-out among answered calls; distinct by plan hash"
+const c16Rule = "a real RemoteClient.Run against a scripted loopback server that completes the handshake with the real server key; plan = 1..7 concurrent synchronous calls of mixed kinds with distinct keys, per call the server answers, rejects (code, text) or stays silent / answers after the time-out, in a generated response order with small delays, in a fifth of the plans with one call answered exactly at its deadline while the others are still pending, plus unsolicited responses, then up to two of the calls issued again one at a time and answered at once; request time-out 150-400 ms; oracle: every call returns exactly the planned outcome for its own key; non-trivial = >= 3 concurrent calls of >= 2 kinds, or a time-out among answered calls; distinct by plan hash"
 
 func c16Nontrivial(f map[string]bool) bool { return f["mixed-concurrent"] || f["timeout-case"] }
 
